@@ -52,6 +52,7 @@ int main(int argc, char** argv) {
             const bool pawnRush = rnd.nextInt(4) == 0;      // games in which pawns run (promotions, en passant, long pawn paths)
             int plies = 1 + rnd.nextInt(150);
             if (rnd.nextInt(3) == 0) plies = 1 + rnd.nextInt(24);
+            if (rnd.nextInt(6) == 0) plies = 1 + rnd.nextInt(5);      // very short games: the last moves are forced (retro analysis)
             std::string line;
             for (int p = 0; p < plies; p++) {
                 MoveList ml; legalMoves(pos, ml);
